@@ -982,6 +982,72 @@ def ctor_routes(rng, tier, count):
     return lines
 
 
+COV_SCALE_DOWN = [0, 40, 80, 112, 200, 500, 900]      # covariance multiplied by 2^-k (the factor L by 2^-(k/2), exactly)
+COV_SCALE_UP = [100, 400]
+
+
+def mvn_scales(rng, tier, count, kq):
+    """MVN sampling over covariance SCALES: the same well-conditioned SPD shapes (dimension 1..5) multiplied by 2^-k / 2^+k,
+    mixed-scale diagonals, means 0 / ordinary / huge.  Every group shares its seed and contains the identity-covariance
+    zero-mean line, so that the oracle knows the standard-normal draws z (oracle_mvn_rows), and the zero-mean lines are
+    power-of-four multiples of each other (oracle_scale: exact scale equivariance)."""
+    import numpy as np
+
+    lines = []
+    quick = tier == "quick"
+    nq = 100000 if quick else 1000000
+
+    def group(d, base, extra_covs, tag):
+        seed = rng.u64()
+        n = rng.choice([3, 17, 40])
+        zero = [0.0] * d
+        ident = [1.0 if a == b else 0.0 for a in range(d) for b in range(d)]
+        lines.append(mvn_line(seed, n, zero, ident))
+        count("mvn-scale:reference")
+        downs = COV_SCALE_DOWN if not quick else [0, rng.choice([40, 80]), rng.choice([112, 200]), rng.choice([500, 900])]
+        ups = COV_SCALE_UP if not quick else [rng.choice(COV_SCALE_UP)]
+        for k in [-x for x in downs] + ups:
+            cov = [x * math.ldexp(1.0, k) for x in base]
+            lines.append(mvn_line(seed, n, zero, cov))
+            count("mvn-scale:%s:2^%d" % (tag, k))
+            if k in (-112, -500, 400) or not quick:
+                mean = [rng.uniform(-10, 10) for _ in range(d)] if rng.chance(0.5) else \
+                    [rng.choice([1e300, -1e300, 2.0 ** 600, 1.0]) for _ in range(d)]
+                lines.append(mvn_line(seed, n, mean, cov))
+                lines.append("mvns" + mvn_line(seed, n, mean, cov)[3:])
+                count("mvn-scale:%s:mean" % tag)
+        for cov in extra_covs:
+            lines.append(mvn_line(seed, n, zero, cov))
+            lines.append(mvn_line(seed, n, [rng.uniform(-10, 10) for _ in range(d)], cov))
+            count("mvn-scale:mixed-diagonal")
+
+    for d in range(1, 6):
+        bases = [(lab, cov) for lab, _, cov in special_covs(rng, d) if lab in ("equicorrelated", "tridiagonal", "[[4,1.5],[1.5,1]]")]
+        if d == 1:
+            bases = [("[4]", [4.0])]
+        _, c0 = spd(rng, d)
+        bases.append(("random", c0))
+        if quick:
+            bases = [bases[rng.randint(0, len(bases) - 1)], bases[-1]]
+        for j, (lab, base) in enumerate(bases):
+            extra = []
+            if j == 0 and d == 2:
+                extra = [[1.0, 0.0, 0.0, 1e-36], [4e-34, 1e-34, 1e-34, 1e-34], [1e-36, 0.0, 0.0, 1.0]]
+            if j == 0 and d == 3:
+                extra = [[1e-33, 0.0, 0.0, 0.0, 1.0, 0.0, 0.0, 0.0, 1e10], [2.0, 1e-17, 0.0, 1e-17, 1e-33, 0.0, 0.0, 0.0, 3.0]]
+            group(d, base, extra, lab)
+    # whitened coordinates + projections at extreme scales (DKW): the law must not depend on the scale
+    qs = [(2, [4e-34, 1e-34, 1e-34, 1e-34]), (2, [1.0, 0.0, 0.0, 1e-36]), (3, [1e-33, 0.0, 0.0, 0.0, 1.0, 0.0, 0.0, 0.0, 1e10])]
+    for d in (2, 3, 5):
+        base = [c for lab, _, c in special_covs(rng, d) if lab == "tridiagonal"][0]
+        for k in ([-112, -900, 400] if not quick else [rng.choice([-112, -500, -900, 400])]):
+            qs.append((d, [x * math.ldexp(1.0, k) for x in base]))
+    for d, cov in qs:
+        lines.append(qmvn_line(rng, rng.u64(), nq, [0.0] * d, cov, kq))
+        count("qmvn-scale")
+    return lines
+
+
 INVALID = [("normal", [0.0, -1.0]), ("gamma", [0.0, 1.0]), ("gamma", [1.0, -2.0]), ("beta", [-1.0, 1.0]), ("beta", [1.0, 0.0]),
            ("chi2", [0]), ("t", [0.0]), ("t", [-3.0]), ("poisson", [0.0]), ("poisson", [-1.0]), ("binomial", [5, 1.5]),
            ("binomial", [5, -0.1]), ("exp", [0.0]), ("gumbel", [0.0, 0.0]), ("pareto", [1.0, 0.0]), ("pareto", [-1.0, 1.0]),
@@ -1078,6 +1144,11 @@ def corpus():
         c_line("new", "exp", ZERO_SEEDS[0], 3, [1.0]),
         # T::new(5e-324) is accepted (dof > 0) but `Gamma::new(dof / 2., 1.)` inside sample() panics: dof / 2 rounds to 0
         s_line("t", 1, 3, [5e-324]),
+        # seeded change C03u: a `temp.abs() < EPSILON => skip` shortcut in matmul made every MVN coordinate whose Cholesky row is
+        # below 2.2e-16 exactly equal to its mean.  Identity reference first (gives z), then tiny / mixed-scale covariances
+        mvn_line(9, 8, [0.0, 0.0], [1.0, 0.0, 0.0, 1.0]), mvn_line(9, 8, [0.0, 0.0], [4e-34, 1e-34, 1e-34, 1e-34]),
+        mvn_line(9, 8, [3.0, -2.0], [1.0, 0.0, 0.0, 1e-36]), mvn_line(9, 8, [0.0, 0.0], [4.0 * 2.0 ** -200, 2.0 ** -200, 2.0 ** -200, 2.0 ** -200]),
+        mvn_line(9, 8, [0.0, 0.0], [4.0, 1.0, 1.0, 1.0]),
         # open finding du:panic:range>=2^63 (dependency alea: hi + 1 - lo overflows i64)
         s_line("du", 7, 5, [0, I64MAX]), s_line("du", 7, 5, [-2 ** 62, 2 ** 62]),
     ]
@@ -1123,6 +1194,7 @@ def gen(rng, tier):
             count("hq:%s:%s" % (dist, MODES[mode]))
     lines += strata(rng.fork("strata"), tier, count)
     lines += ctor_routes(rng.fork("ctor"), tier, count)
+    lines += mvn_scales(rng.fork("mvnscale"), tier, count, kq)
     for dist, ps in INVALID:
         lines.append(s_line(dist, rng.u64(), 3, ps))
         count("invalid-params")
@@ -1304,6 +1376,87 @@ def oracle(lines, impl):
                                      % (dist_shown, ps, o["seed"], n, L, where, eps), "%.6f" % eps))
     fails += oracle_scale(lines, impl)
     fails += oracle_twin(lines, impl)
+    fails += oracle_mvn_rows(lines, impl)
+    return fails
+
+
+def mp_cholesky(cov, d):
+    """lower Cholesky factor of the (exact) doubles in `cov`, in 60-digit arithmetic; None if not positive definite"""
+    import mpmath as mp
+
+    mp.mp.dps = 60
+    a = [[mp.mpf(cov[i * d + j]) for j in range(d)] for i in range(d)]
+    L = [[mp.mpf(0)] * d for _ in range(d)]
+    for i in range(d):
+        for j in range(i + 1):
+            sm = a[i][j] - sum(L[i][k] * L[j][k] for k in range(j))
+            if i == j:
+                if sm <= 0:
+                    return None
+                L[i][j] = mp.sqrt(sm)
+            else:
+                L[i][j] = sm / L[j][j]
+    return L
+
+
+def oracle_mvn_rows(lines, impl):
+    """MVN rows against the standard-normal draws they were built from.  A `mvn` line with identity covariance and zero mean
+    returns the draws z themselves (x = 0 + I z exactly); every other `mvn` line of the same dimension, seed and length
+    must return x = mean + L z with L the Cholesky factor of ITS covariance, at every scale of that covariance:
+    (a) a coordinate may equal its mean exactly only if |(L z)_i| is below 2 ulp of the mean (no degenerate coordinate),
+    (b) |x_i - (mean_i + (L z)_i)| <= 1e-12 * (|mean_i| + sum_k |L_ik z_k|) (reference in 60-digit arithmetic)."""
+    import mpmath as mp
+
+    fails = []
+    groups = {}
+    for i, l in enumerate(lines):
+        if l.startswith("mvn "):
+            t = l.split()
+            groups.setdefault((t[3], t[1], t[2]), []).append(i)
+    for (dd, seed, nn), idx in groups.items():
+        d, n = int(dd), int(nn)
+        ref = None
+        for i in idx:
+            o = parse_line(lines[i])
+            if o["cr"] == d and o["cc"] == d and all(m == 0.0 for m in o["mean"]) and \
+                    o["cov"] == [1.0 if a == b else 0.0 for a in range(d) for b in range(d)]:
+                st, toks = parse_reply(impl[i])
+                if st == "ok" and len(toks) == 3 + n * d:
+                    ref = [h2f(x) for x in toks[2:-1]]
+                break
+        if ref is None:
+            continue
+        for i in idx:
+            o = parse_line(lines[i])
+            st, toks = parse_reply(impl[i])
+            if st != "ok" or len(toks) != 3 + n * d or o["cr"] != d or o["cc"] != d:
+                continue
+            L = mp_cholesky(o["cov"], d)
+            if L is None:
+                continue
+            xs = [h2f(x) for x in toks[2:-1]]
+            bad = None
+            for r in range(n):
+                for c in range(d):
+                    terms = [L[c][k] * mp.mpf(ref[r * d + k]) for k in range(c + 1)]
+                    sz = sum(terms)
+                    x, m = xs[r * d + c], o["mean"][c]
+                    if not math.isfinite(x):
+                        continue
+                    if x == m and abs(sz) > 2 * math.ulp(m) and abs(sz) > mp.mpf(2) ** -1000:
+                        bad = ("mvn:degenerate:d=%d" % d, "row %d coordinate %d equals its mean %r exactly although (L z)_i = %s "
+                               "(L_ii = %s, z = %r)" % (r, c, m, mp.nstr(sz, 8), mp.nstr(L[c][c], 8), ref[r * d:r * d + d]))
+                        break
+                    tol = mp.mpf(10) ** -12 * (abs(mp.mpf(m)) + sum(abs(t) for t in terms)) + mp.mpf(2) ** -1060
+                    if abs(mp.mpf(x) - (mp.mpf(m) + sz)) > tol:
+                        bad = ("mvn:rows:d=%d" % d, "row %d coordinate %d is %r, expected mean + (L z)_i = %s"
+                               % (r, c, x, mp.nstr(mp.mpf(m) + sz, 17)))
+                        break
+                if bad:
+                    break
+            if bad:
+                fails.append(Failure(i, bad[0], "MVN dimension %d seed %s, covariance scale ~ %.3g: %s"
+                                     % (d, seed, o["cov"][0], bad[1])))
     return fails
 
 
@@ -1361,6 +1514,24 @@ def scale_exponent(dist, base, ps):
 SCALE_KS = [1, -1, 3, -7, 40, -40, 200, -200, 500, -500]
 
 
+def mvn_scale_exponent(ob, oj):
+    """-> k with mean_j = mean_b * 2^k and cov_j = cov_b * 4^k exactly (k != 0), else None"""
+    nz = [(a, b) for a, b in zip(ob["cov"], oj["cov"]) if a != 0.0]
+    if not nz or ob["cov"] == oj["cov"] or len(ob["cov"]) != len(oj["cov"]):
+        return None
+    a, b = nz[0]
+    if b == 0.0 or (a > 0) != (b > 0):
+        return None
+    (ma, ea), (mb, eb) = math.frexp(a), math.frexp(b)
+    if ma != mb or (eb - ea) % 2 != 0:
+        return None
+    k = (eb - ea) // 2
+    f = math.ldexp(1.0, k)
+    if [x * f for x in ob["mean"]] == oj["mean"] and [x * f * f for x in ob["cov"]] == oj["cov"]:
+        return k
+    return None
+
+
 def oracle_scale(lines, impl):
     """Two `s` lines of the same distribution, seed and length whose parameters differ by the power-of-two scale map must
     give draws that differ by exactly that power of two, and the same final state (bit-exact; same for `mvn` pairs with
@@ -1394,11 +1565,7 @@ def oracle_scale(lines, impl):
                 name = "%s%r vs %r" % (ob["dist"], ob["ps"], oj["ps"])
                 fkey = "%s:scale-equivariance" % ob["dist"]
             else:
-                k = None
-                for kk in SCALE_KS:
-                    f = math.ldexp(1.0, kk)
-                    if [x * f for x in ob["mean"]] == oj["mean"] and [x * f * f for x in ob["cov"]] == oj["cov"]:
-                        k = kk
+                k = mvn_scale_exponent(ob, oj)
                 vb, vj = tb[2:-1], tj[2:-1]
                 name = "MVN dimension %d" % ob["d"]
                 fkey = "mvn:scale-equivariance"
@@ -1512,6 +1679,8 @@ REQUIRED_THEOREMS = REQUIRED_THEOREMS + [t for t in (
     "Cv.C03.exponential_support_partial", "Cv.C03.pareto_support_partial", "Cv.C03.mvn_sample_spec_partial",
     "Cv.C03.discrete_uniform_support_partial", "Cv.C03Support.ptrs_returns_witness", "Cv.C03Mvn.mvn_new_witness",
 ) if t not in REQUIRED_THEOREMS]
+PROOF_MODULES = PROOF_MODULES + [m for m in ("Compute.Props.C03Scale",) if m not in PROOF_MODULES]
+REQUIRED_THEOREMS = REQUIRED_THEOREMS + [t for t in ("Cv.C03Scale.mvn_scale_equivariance_partial",) if t not in REQUIRED_THEOREMS]
 NOT_PROVED = [
     "the LAWS of the rejection samplers: Ziggurat normal, Marsaglia–Tsang gamma (and so beta, chi-squared, t), PTRS Poisson, "
     "BTPE binomial — measure theory over acceptance regions; decided only by the bit-exact tie + DKW search.  In particular "
